@@ -57,7 +57,8 @@ def run(pid, mine, cfgs, rule, level="model_checking", facets_on=True, extra=Non
                 actions[a] = actions.get(a, 0) + n
             per[name] = {"paths": len(paths), "design_counterexamples": len(ce), "tlc_distinct": r.distinct, "tlc_generated": r.generated,
                          "depth": depth, "alphabet": alpha, "inits": inits, "simulate": sim, "tlc_wall_s": round(r.wall, 1)}
-            jobs += [("%s:%d" % (name, i), p, facets_on) for i, p in enumerate(paths)]
+            # the configurations with pictures / media also run the COMPANION (a second presentation in the same process, drive/deck.py)
+            jobs += [("%s:%d" % (name, i), p, facets_on, name in ("media", "gc", "dup", "many", "sim")) for i, p in enumerate(paths)]
             ces += ce
     # replay and validate in chunks so that thorough runs (10^5 histories) never hold more than one chunk of traces in memory
     tot, ntraces, smp = {}, 0, None
@@ -100,6 +101,8 @@ def run(pid, mine, cfgs, rule, level="model_checking", facets_on=True, extra=Non
                 else:
                     last = t["h"][min(b["k"], len(t["h"])) - 1] if b["k"] - 1 < len(t["h"]) else t["h"][-1]
                     sname = "save-after-" + (last["op"] if "op" in last else "?")
+                    if b["k"] == len(t["h"]) + 2:
+                        sname = "companion-save"        # the second presentation living in the same process (drive/deck.py)
                     errs = [s.get("err") or (s["z"] or {}).get("reopenErr") for s in t["saves"] if s["at"] == b["k"]]
                 rep.reject("%s@%s" % ("+".join(fl), sname),
                            {"module": "Deck", "id": t["id"], "h": t["h"], "failing": b,
